@@ -98,6 +98,7 @@ class SpecSet:
         self._opaque_attrs: dict = {}
         self._module_fns: dict = {}
         self.handlers: dict = {}
+        self.opaque_globals: dict = {}  # module-level objects of library types (e.g. a pydantic TypeAdapter): name -> type
         # postconditions recorded as known findings are FALSE on the current tree: a caller must never assume them
         self.unproved: set = set()
         import json as _json
@@ -145,6 +146,7 @@ class SpecSet:
             self.module_fns_src.setdefault(fq_, sp_)
         self.event_fields_src.update(consts.get("EVENT_FIELDS", {}))
         self.inline.update(consts.get("INLINE", []))
+        self.opaque_globals.update(consts.get("OPAQUE_GLOBALS", {}))
         self.lock_types.update(consts.get("LOCK_TYPES", []))
         self.frozen_write_ok.update(consts.get("FROZEN_WRITE_OK", []))
         self.extra_subclass.update(consts.get("EXTRA_SUBCLASS", {}))
